@@ -139,6 +139,17 @@ def curated_cases():
         for is_admin in (False, True):
             for target in (None, {'project_id': None, 'user_id': None}, {'project_id': 'p1', 'user_id': 'u1'}, {}):
                 out.append((dict(rules), fixed_token(scope), is_admin, target))
+    # attribute names as OpenStack services spell them (colons, dashes, dots from nesting), and a dotted key next to
+    # the nested path of the same name, in either order (the later entry of the file wins)
+    rules2 = {'n:a': 'user_id:%(network:tenant_id)s', 'n:b': 'user_id:%(server.OS-EXT-SRV-ATTR:host)s',
+              'n:c': 'user_id:%(target.secret.owner)s', 'n:d': 'not user_id:%(target.secret.owner)s',
+              'n:e': 'user_id:%(os-ext:zone)s'}
+    for tgt in ({'network:tenant_id': 'u1', 'server': {'OS-EXT-SRV-ATTR:host': 'u1'}, 'os-ext:zone': 'zz',
+                 'target.secret.owner': 'u1', 'target': {'secret': {'owner': 'zz'}}},
+                {'network:tenant_id': 'zz', 'server': {'OS-EXT-SRV-ATTR:host': 'zz'}, 'os-ext:zone': 'u1',
+                 'target': {'secret': {'owner': 'zz'}}, 'target.secret.owner': 'u1'},
+                {'target': {'secret': {'owner': 'u1'}}, 'target.secret.owner': 'zz', 'network:tenant_id': 'u1'}):
+        out.append((dict(rules2), fixed_token('project'), False, tgt))
     return out
 
 
